@@ -71,6 +71,20 @@ pub struct Spec {
     pub fault_step: u8,
 }
 
+/// Make `link` report something else than its peers: an extra product, or (odd `variant`, when it has a product)
+/// the same path recorded for other content under another hash algorithm only.
+fn dissent(link: &mut LinkSpec, variant: u8) {
+    let first = link.products.keys().next().cloned();
+    match first {
+        Some(p) if variant % 2 == 1 => {
+            link.products.insert(p, [("sha512".to_string(), DIGEST_POOL_512[1].to_string())].into());
+        }
+        _ => {
+            link.products.insert("dissent".into(), digest_of(1));
+        }
+    }
+}
+
 fn sha256_hex(b: &[u8]) -> String {
     hex(ring::digest::digest(&ring::digest::SHA256, b).as_ref())
 }
@@ -237,7 +251,7 @@ pub fn build(spec: &Spec) -> World {
             let idx: Vec<usize> = w.links.iter().enumerate().filter(|(_, f)| f.step == name).map(|(i, _)| i).collect();
             if idx.len() >= 2 {
                 if let Body::Link { link, .. } = &mut w.links[idx[1]].body {
-                    link.products.insert("dissent".into(), digest_of(1));
+                    dissent(link, spec.fault_step);
                 }
             } else {
                 // make it a two-party step first
@@ -248,7 +262,7 @@ pub fn build(spec: &Spec) -> World {
                 f.filed_under = k2.clone();
                 if let Body::Link { link, sigs, .. } = &mut f.body {
                     *sigs = vec![SigEntry::good(&k2)];
-                    link.products.insert("dissent".into(), digest_of(1));
+                    dissent(link, spec.fault_step);
                 }
                 w.links.push(f);
             }
